@@ -388,3 +388,133 @@ def check_forwarding_calls(ix, rep, name_filter, rule='R-FWD'):
                             mname, ', '.join(got), c.func.value.attr, ', '.join(params),
                             (': `%s` never reaches that interpreter, which keeps its default' % missing[0]) if missing else ''), c.lineno)
     return n
+
+
+# ------------------------------------------------------------------------------------------------------------------------------
+def _interp_attrs(ix):
+    """interpreter attributes of specification objects, and whether one class holds several at once"""
+    spec = ix.find_class('rtamt.spec.abstract_specification', 'AbstractSpecification')
+    per_class = {}
+    for c in [spec] + list(ix.subclasses_of(spec)):
+        got = set()
+        for k in ix.mro(c):
+            init = getattr(k, 'methods', {}).get('__init__')
+            if init is None:
+                continue
+            for st in ast.walk(init.node):
+                if isinstance(st, ast.Assign):
+                    for t in st.targets:
+                        if isinstance(t, ast.Attribute) and isinstance(t.value, ast.Name) and t.value.id == 'self' and t.attr.endswith('_interpreter'):
+                            got.add(t.attr)
+        per_class[c.name] = got
+    return spec, per_class
+
+
+def _receiver_attr(f, call_recv, attrs):
+    """which interpreter attribute(s) an expression denotes inside f: ('one', X) | ('each', [X..]) | ('first-of', [X..]) | None"""
+    if isinstance(call_recv, ast.Attribute) and isinstance(call_recv.value, ast.Name) and call_recv.value.id == 'self' and call_recv.attr in attrs:
+        return ('one', call_recv.attr)
+    if isinstance(call_recv, ast.Call) and isinstance(call_recv.func, ast.Name) and call_recv.func.id == 'getattr' and len(call_recv.args) >= 2 \
+            and isinstance(call_recv.args[0], ast.Name) and call_recv.args[0].id == 'self':
+        k = call_recv.args[1]
+        if isinstance(k, ast.Constant) and k.value in attrs:
+            return ('one', k.value)
+        if isinstance(k, ast.Name):
+            # name bound by an enclosing loop over a literal tuple/list of attribute names
+            for lp in ast.walk(f.node):
+                if isinstance(lp, ast.For) and isinstance(lp.target, ast.Name) and lp.target.id == k.id and isinstance(lp.iter, (ast.Tuple, ast.List)) \
+                        and all(isinstance(e, ast.Constant) and e.value in attrs for e in lp.iter.elts) and any(x is call_recv for x in ast.walk(lp)):
+                    leaves_early = any(isinstance(x, (ast.Break, ast.Return)) for b in lp.body for x in ast.walk(b))
+                    return ('first-of' if leaves_early else 'each', [e.value for e in lp.iter.elts])
+        return None
+    return None
+
+
+def check_forwarding_reach(ix, rep, rule='R-FWD'):
+    """a specification object may hold an online and an offline interpreter at once (the combined classes).  A setting made on the
+    specification has to arrive at every interpreter it holds -- a forwarding call per interpreter attribute, conditioned on nothing but that
+    interpreter's own presence and kind -- and a quantity the interpreters *count* themselves (they write it outside the setter) has to be
+    read from all of them, not from whichever is found first."""
+    spec, per_class = _interp_attrs(ix)
+    attrs = sorted(set().union(*per_class.values()))
+    combined = sorted(c for c, a in per_class.items() if len(a) > 1)
+    if len(attrs) < 2 or not combined:
+        raise AnalysisError('no specification class holds two interpreters any more (%s): the forwarding rule has no instance' % attrs)
+    n = 0
+    for mname, f in sorted(spec.methods.items()):
+        calls = [c for c in ast.walk(f.node) if isinstance(c, ast.Call) and isinstance(c.func, ast.Attribute) and c.func.attr == mname]
+        if not (mname.startswith('set_') and 'sampling' in mname):
+            continue
+        rep.analysed(f)
+        parents = {}
+        for p in ast.walk(f.node):
+            for c in ast.iter_child_nodes(p):
+                parents[id(c)] = p
+        reached = {}
+        problems = []
+        for c in calls:
+            recv = c.func.value
+            kind = _receiver_attr(f, recv, attrs)
+            if kind is None and isinstance(recv, ast.Name):
+                # a local: follow its single binding
+                binds = [a for a in ast.walk(f.node) if isinstance(a, ast.Assign) and any(isinstance(t, ast.Name) and t.id == recv.id for t in a.targets)]
+                if len(binds) == 1:
+                    v = binds[0].value
+                    kind = _receiver_attr(f, v, attrs)
+                    if kind is None and isinstance(v, ast.Call) and isinstance(v.func, ast.Attribute) and isinstance(v.func.value, ast.Name) and v.func.value.id == 'self':
+                        helper = ix.resolve_method(spec, v.func.attr)
+                        if helper is not None:
+                            rets = [r for r in ast.walk(helper.node) if isinstance(r, ast.Return) and r.value is not None and not (isinstance(r.value, ast.Constant) and r.value.value is None)]
+                            names = set()
+                            for r in rets:
+                                k = _receiver_attr(helper, r.value, attrs)
+                                if k is None and isinstance(r.value, ast.Name):
+                                    bs = [a for a in ast.walk(helper.node) if isinstance(a, ast.Assign) and any(isinstance(t, ast.Name) and t.id == r.value.id for t in a.targets)]
+                                    if len(bs) == 1:
+                                        k = _receiver_attr(helper, bs[0].value, attrs)
+                                if k is None:
+                                    names = None
+                                    break
+                                names |= {k[1]} if k[0] == 'one' else set(k[1])
+                            if names:
+                                # a helper that *returns* an interpreter returns one object: at most one of the candidates gets the call
+                                kind = ('first-of', sorted(names))
+            if kind is None:
+                raise AnalysisError('%s: receiver `%s` of the forwarding call is not resolved to an interpreter attribute' % (f.where, ast.unparse(recv)))
+            if kind[0] == 'first-of':
+                problems.append((c, 'the call goes to the first interpreter found among %s only' % kind[1]))
+                for x in kind[1][:1]:
+                    reached.setdefault(x, c)
+                continue
+            targets = [kind[1]] if kind[0] == 'one' else kind[1]
+            # conditions the call is executed under: every enclosing `if` must be about this interpreter alone, taken on its true branch
+            q = c
+            cond_bad = None
+            while id(q) in parents:
+                par = parents[id(q)]
+                if isinstance(par, ast.If) and q is not par.test:
+                    in_else = any(q is s for s in par.orelse)
+                    mentioned = {a for a in attrs if a in ast.unparse(par.test)}
+                    others = mentioned - set(targets)
+                    if in_else and mentioned:
+                        cond_bad = 'it sits in the else-branch of the test `%s`: an object with %s never forwards to %s' % (ast.unparse(par.test)[:60], sorted(mentioned), targets)
+                    elif others and kind[0] == 'one':
+                        cond_bad = 'it is conditioned on another interpreter (`%s`)' % ast.unparse(par.test)[:60]
+                q = par
+            if cond_bad:
+                problems.append((c, cond_bad))
+            else:
+                for x in targets:
+                    reached.setdefault(x, c)
+        for a in attrs:
+            n += 1
+            slot = '%s=>%s' % (mname, a)
+            bad = [p for p in problems]
+            if a in reached and not any(True for (c, why) in problems if a in ast.unparse(c) or 'first interpreter' in why and a != (sorted(reached)[0])):
+                rep.ok(rule, f.module.rel, f.qual, slot, 'forwarded whenever the object has a discrete-time %s' % a, reached[a].lineno)
+            else:
+                why = '; '.join(w for (_c, w) in problems) or 'no forwarding call for it'
+                rep.fail(rule, f.module.rel, f.qual, slot, '%s() does not reach self.%s on every object that has one (%s hold %s at once): %s. That interpreter keeps the default '
+                         'period, so its bounds are counted in the wrong number of samples (or rejected as not a multiple)' % (mname, a, ', '.join(combined[:2]), ' and '.join(attrs), why),
+                         (problems[0][0].lineno if problems else f.node.lineno))
+    return n
